@@ -242,6 +242,8 @@ func init() {
 			{Name: "flat", Weight: 3, Fn: c04Profile("flat")},
 			{Name: "hier", Weight: 3, Fn: c04Profile("hier")},
 			{Name: "persistent", Weight: 3, Fn: c04Profile("persistent")},
+			{Name: "flat-atomics", Weight: 1, Fn: withAtomicYields(c04Profile("flat"))},
+			{Name: "hier-atomics", Weight: 1, Fn: withAtomicYields(c04Profile("hier"))},
 			{Name: "decorators", Weight: 3, Fn: c04Decorators},
 			{Name: "grpc-streams", Weight: 2, Fn: c04GRPCStreams},
 		},
